@@ -14,7 +14,8 @@ from ..world import PASSWORDS, World, agent_for
 
 ID = "C14"
 LEVEL = "exploration"
-RULE = ("Seeded plans: 2-6 operations from {get, multiget, getnext, walk, bulkwalk, set, table} started together "
+RULE = ("Seeded plans: 2-6 operations from {get, multiget, getnext, multigetnext, bulkget, set, multiset, walk, multiwalk, "
+        "bulkwalk, table, bulktable} (walks and tables over overlapping subtrees) started together "
         "(asyncio.gather) on one shared client or on 2-3 clients (different agents, credentials, databases) on one loop; v2c "
         "and v3 authPriv (fresh client, so engine discovery is concurrent too); SET targets are disjoint from everything else. "
         "The schedule is the latency of each response datagram, keyed by (operation, exchange number): for groups of "
@@ -29,11 +30,13 @@ ASSUMPTIONS = [
     "lossy configuration: an operation may end in Timeout instead of its solo result, never in a different result",
 ]
 PROBES = ["shared_client", "multi_client", "v3_concurrent_discovery", "complete_permutation_group", "contains_walk",
-          "same_request_id_in_flight", "lossy", "lossy_timeout", "set_in_group", "six_ops"]
+          "same_request_id_in_flight", "lossy", "lossy_timeout", "set_in_group", "six_ops", "overlapping_walks"]
 shrink_lists = [("ops",)]
 BASE = (1, 3, 6, 1, 2, 1, 7)
-SINGLE = ["get", "multiget", "getnext", "set"]
-MULTI = ["walk", "bulkwalk", "table"]
+#: SET targets lie before every object any operation reads: GETNEXT/GETBULK only move forward, so no read can ever reach them
+SETBASE = (1, 3, 6, 1, 2, 1, 1, 0)
+SINGLE = ["get", "multiget", "getnext", "set", "multigetnext", "bulkget", "multiset"]
+MULTI = ["walk", "bulkwalk", "table", "multiwalk", "bulktable"]
 
 
 def total(tier: str) -> int:
@@ -58,7 +61,18 @@ def _gen_op(rng: Any, kind: str, keys: List[tuple], k: int) -> dict:
     if kind == "getnext":
         return {"op": "getnext", "oid": rng.choice(keys[:-1]) if len(keys) > 1 else BASE}
     if kind == "set":
-        return {"op": "set", "oid": BASE + (9, k, 0), "val": ("int", 100 + k)}   # disjoint from every read
+        return {"op": "set", "oid": SETBASE + (k, 0), "val": ("int", 100 + k)}   # disjoint from every read
+    if kind == "multigetnext":
+        return {"op": "multigetnext", "oids": [rng.choice(keys[:-1] or keys) for _ in range(rng.randrange(1, 4))]}
+    if kind == "bulkget":
+        return {"op": "bulkget", "scalars": [rng.choice(keys[:-1] or keys)], "repeaters": [BASE + (1, rng.choice([1, 2, 3]))],
+                "maxrep": rng.choice([1, 2, 4])}
+    if kind == "multiset":
+        return {"op": "multiset", "items": [(SETBASE + (k, 1), ("int", 200 + k)), (SETBASE + (k, 2), ("str", b"ms-%d" % k))]}
+    if kind == "multiwalk":
+        return {"op": "multiwalk", "roots": [BASE + (1, c) for c in rng.sample([1, 2, 3], 2)]}
+    if kind == "bulktable":
+        return {"op": "bulktable", "oid": BASE, "bulk": rng.choice([1, 3, 10])}
     if kind == "walk":
         return {"op": "walk", "root": BASE + (1, rng.choice([1, 2, 3]))}
     if kind == "bulkwalk":
@@ -235,8 +249,9 @@ def execute(plan: dict) -> dict:
         "shared_client": int(len(plan["clients"]) == 1), "multi_client": int(len(plan["clients"]) > 1),
         "v3_concurrent_discovery": int(v3 and ndisco > len(plan["clients"])),
         "complete_permutation_group": int(plan["complete"]),
-        "contains_walk": int(any(k in MULTI for k in kinds)), "same_request_id_in_flight": int(conc["same_rid"]),
-        "lossy": int(plan["lossy"]), "lossy_timeout": lossy_timeout, "set_in_group": int("set" in kinds),
+        "contains_walk": int(any(k in MULTI for k in kinds)),
+        "overlapping_walks": int(sum(1 for k in kinds if k in MULTI) >= 2), "same_request_id_in_flight": int(conc["same_rid"]),
+        "lossy": int(plan["lossy"]), "lossy_timeout": lossy_timeout, "set_in_group": int("set" in kinds or "multiset" in kinds),
         "six_ops": int(len(kinds) == 6),
     }
     counters = dict(conc["counters"])
